@@ -98,6 +98,7 @@ class MonitorExec(Exec):
             if s.mon.get('cut'):
                 continue
             self.paths += 1
+            s.mon['exit_sig'] = sig
             if sig[0] == 'raise':
                 self.mspec.on_raise(self, s, sig[1], sig[2])
             self.segment_end(s, 'exit:' + sig[0] + (':' + sig[1] if sig[0] == 'raise' else ''), fnode)
@@ -138,6 +139,12 @@ class MonitorExec(Exec):
             h = self.ms.intrinsics.get('stmt:' + s.value.func.id)
             if h is not None:
                 return h(self, st, s.value)
+        if isinstance(s.value, ast.Call) and isinstance(s.value.func, ast.Attribute):
+            h = self.ms.intrinsics.get('stmt-method:' + s.value.func.attr)
+            if h is not None:
+                r = h(self, st, s.value)
+                if r is not NotImplemented:
+                    return r
         if isinstance(s.value, ast.Yield):
             val = self.eval(s.value.value, st) if s.value.value is not None else NONE
             st.mon['yield_value'] = val
@@ -311,3 +318,53 @@ def install_lock_intrinsics(M):
                 c.set(ex.to_term(k, TInt, st), ex.to_term(v, TInt, st))
             return c
         raise OutOfSubset('Counter(...) of unsupported argument')
+
+
+class TraceSpec(MonitorSpec):
+    """Effect-trace contracts: the function must perform exactly the specified sequence of effects
+    (with equal arguments) for each outcome.  `expected[qualname](st, outcome)` returns the list of
+    (effect name, [argument values]) where outcome is 'return', 'body-raises' or the exception name."""
+
+    name = 'trace'
+    expected = {}
+
+    def setup(self, ex, st):
+        st.mon['trace'] = []
+
+    def havoc(self, ex, st):
+        pass
+
+    def before_yield(self, ex, st, node):
+        st.mon['trace'] = st.mon['trace'] + [('yield', [st.mon.get('yield_value')])]
+
+    def on_exit(self, ex, st):
+        sig = st.mon['exit_sig']
+        outcome = 'return' if sig[0] != 'raise' else ('body-raises' if sig[1] == 'BodyException' else sig[1])
+        want = self.expected[ex.c.qualname](st, outcome)
+        got = st.mon['trace']
+        desc = ' > '.join(n for n, _ in want) if want is not None else '(outcome not allowed)'
+        ok = want is not None and len(want) == len(got)
+        conj = []
+        if ok:
+            for (wn, wargs), (gn, gargs) in zip(want, got):
+                if wn != gn or len(wargs) != len(gargs):
+                    ok = False
+                    break
+                for a, b in zip(wargs, gargs):
+                    if a is None:
+                        continue  # argument not constrained by the specification
+                    if b is None or b is NONE:
+                        ok = False
+                        break
+                    try:
+                        conj.append(ex.eq_term(a, b, st))
+                    except Exception:
+                        ok = False
+        goal = z3.And(*conj) if (ok and conj) else z3.BoolVal(ok)
+        ex.oblige(st, 'trace', f'outcome {outcome}: effects are exactly {desc}'
+                  + ('' if ok else f' (got {" > ".join(n for n, _ in got)})'), goal, 0,
+                  f'effect trace == specification [{outcome}]', keep=True)
+
+
+def record(st, name, args):
+    st.mon['trace'] = st.mon['trace'] + [(name, list(args))]
